@@ -99,8 +99,8 @@ func runC09(w *World, c *Check) {
 			Want: `keytab\.\(\*Keytab\)\.GetEncryptionKey\(credentials\.\(\*Credentials\)\.Keytab\(c\), ` + rep + `\.CName, ` + rep + `\.CRealm, ` + rep + `\.EncPart\.KVNO, ` + rep + `\.EncPart\.EType\)`},
 		{Name: "password-key", Desc: "password key derived for the reply's (cname, crealm, etype) with the reply's PA-data", Callee: `crypto\.GetKeyFromPassword`,
 			Want: `crypto\.GetKeyFromPassword\(credentials\.\(\*Credentials\)\.Password\(c\), ` + rep + `\.CName, ` + rep + `\.CRealm, ` + rep + `\.EncPart\.EType, ` + rep + `\.PAData\)`},
-		{Name: "usage-3", Desc: "the AS-REP encrypted part is decrypted with key usage 3", Callee: `crypto\.DecryptEncPart`,
-			Want: `crypto\.DecryptEncPart\(` + rep + `\.EncPart, .*, 3\)`},
+		{Name: "usage-3", Desc: "the AS-REP encrypted part is decrypted with key usage 3 (and no other)", Callee: `crypto\.DecryptEncPart`,
+			Want: `crypto\.DecryptEncPart\(` + rep + `\.EncPart, .*, 3\)`, AllMustMatch: true},
 	})
 	if kfa != nil {
 		// the key operand may only come from the two look-ups above
@@ -120,7 +120,7 @@ func runC09(w *World, c *Check) {
 		})
 	}
 	checkCalls(w, c, "C09.key", "messages.(*TGSRep).DecryptEncPart", []CallSpec{
-		{Name: "usage-8", Desc: "the TGS-REP encrypted part is decrypted with the key parameter and key usage 8", Callee: `crypto\.DecryptEncPart`, Want: `crypto\.DecryptEncPart\(` + rep + `\.EncPart, key, 8\)`},
+		{Name: "usage-8", Desc: "the TGS-REP encrypted part is decrypted with the key parameter and key usage 8 (and no other)", Callee: `crypto\.DecryptEncPart|crypto\.DecryptMessage`, Want: `crypto\.DecryptEncPart\(` + rep + `\.EncPart, key, 8\)`, AllMustMatch: true},
 	})
 	checkCalls(w, c, "C09.key", "client.(*Client).TGSREQGenerateAndExchange", []CallSpec{
 		{Name: "request-keyed-by-session-key", Desc: "the TGS-REQ is built with the TGT and its session key", Callee: `messages\.NewTGSReq`, Want: `messages\.NewTGSReq\(.*, kdcRealm, recv\.Config, tgt, sessionKey, spn, renewal\)`},
@@ -236,22 +236,33 @@ func runC09(w *World, c *Check) {
 		fa := NewFuncAn(w, fn)
 		arms := 0
 		for _, x := range fa.Exits() {
-			// exits reached on the `ok` edge of a KRBError type assertion of a sendToKDC error
+			// exits reached on the `ok` edge of a KRBError type assertion of a sendToKDC error: the
+			// nearest such assertion decides (identity, the two sends render identically)
 			isArm := false
-			var errTerm string
+			var ta *ssa.TypeAssert
 			fs := fa.factsOn(x.In)
 			for _, f := range fs {
-				if f.c.Kind == "bool" && f.holds {
-					if m := regexpFind(`^(client\.\(\*Client\)\.sendToKDC\(.*\)#1)\.\(messages\.KRBError,ok\)#1$`, f.c.L); m != "" {
-						isArm, errTerm = true, m
-					}
+				if f.c.Kind != "bool" {
+					continue
 				}
+				ex, ok := stripNot(f.c.If.Cond).(*ssa.Extract)
+				if !ok || ex.Index != 1 {
+					continue
+				}
+				t, ok := ex.Tuple.(*ssa.TypeAssert)
+				if !ok || !strings.HasSuffix(t.AssertedType.String(), "messages.KRBError") || !strings.HasPrefix(fa.R.R(t.X), "client.(*Client).sendToKDC(") {
+					continue
+				}
+				if f.holds {
+					isArm, ta = true, t
+				}
+				break
 			}
 			// only returns decided by the KRB-ERROR itself (its presence, its code, the referral
 			// count), not returns caused by another operation failing while handling it
 			if isArm && len(fs) > 0 {
 				first := fs[0].c
-				about := strings.HasPrefix(first.L, errTerm+".(messages.KRBError,ok)") || strings.HasPrefix(first.R, errTerm+".(messages.KRBError,ok)")
+				about := condAbout(first.If.Cond, ta)
 				if !about && !strings.Contains(first.L+first.R, "referral") {
 					isArm = false
 				}
@@ -268,8 +279,26 @@ func runC09(w *World, c *Check) {
 				}
 			}
 			arms++
-			good := strings.HasPrefix(es, "krberror.Errorf("+errTerm+",") || strings.HasPrefix(es, "krberror.Errorf(client.(*Client).sendToKDC(") || strings.HasPrefix(es, errTerm)
-			c.Decide(good, "C09.krberror", fk, "arm:"+fa.exitLabel(x), w.Pos(InstrPos(x.Ret)), "a KRB-ERROR from the KDC is returned to the caller wrapped as the cause (first argument of krberror.Errorf) or as itself", "returns "+trunc(es, 200))
+			// identity, not spelling: the error wrapped must be the one whose assertion selected this arm
+			// (two sends of one function render identically)
+			good := false
+			if ta != nil {
+				errV := rs[len(rs)-1]
+				if mi, ok := errV.(*ssa.MakeInterface); ok {
+					errV = mi.X
+				}
+				var cause ssa.Value
+				if call, ok := errV.(*ssa.Call); ok && strings.HasPrefix(fa.CalleeName(call), "krberror.Errorf") && len(call.Call.Args) > 0 {
+					cause = call.Call.Args[0]
+				} else {
+					cause = errV // returned as itself
+				}
+				if mi, ok := cause.(*ssa.MakeInterface); ok {
+					cause = mi.X
+				}
+				good = cause == ta.X || derivesFrom(cause, errExtractTA(ta, 0))
+			}
+			c.Decide(good, "C09.krberror", fk, "arm:"+fa.exitLabel(x), w.Pos(InstrPos(x.Ret)), "the KRB-ERROR that selected this branch is what is returned to the caller, wrapped as the cause (first argument of krberror.Errorf) or as itself", "returns "+trunc(es, 200)+" — the wrapped cause is not the error value this branch asserted (an earlier reply's error?)")
 		}
 		if arms == 0 {
 			c.Fail("C09.krberror", fk, "arms", w.Pos(fn.Pos()), "the exchange has a branch for KRB-ERROR replies", "none found")
@@ -280,5 +309,20 @@ func runC09(w *World, c *Check) {
 			{Name: "msg-type", Desc: "a reply whose message type is not " + mt + " is rejected", Main: []GuardPat{EqPass(mt, `.*\.MsgType`)}},
 		})
 	}
+	ruleEqualityHelpers(w, c, "C09.equal")
 	_ = fmt.Sprint
+}
+
+// condAbout: the branch condition tests the asserted KRBError itself — the assertion's ok, or a
+// comparison one of whose operands reads the asserted value.
+func condAbout(cond ssa.Value, ta *ssa.TypeAssert) bool {
+	cond = stripNot(cond)
+	if ex, ok := cond.(*ssa.Extract); ok {
+		return ex.Tuple == ta
+	}
+	if b, ok := cond.(*ssa.BinOp); ok {
+		e0 := errExtractTA(ta, 0)
+		return e0 != nil && (derivesFrom(b.X, e0) || derivesFrom(b.Y, e0))
+	}
+	return false
 }
